@@ -31,7 +31,10 @@ Values(f) ==
       [] f = "watches" -> IF Rich THEN {"none", "good", "error", "good_and_error", "log_and_capture", "error_empty"}
                           ELSE {"none", "good_and_error", "error_empty"}   \* error_empty: a watch that failed with an
                                                                            \* exception that has no message text
-      [] f = "attrs" -> IF Rich THEN {"none", "str", "bool_int_float", "sequence", "all"} ELSE {"none", "all"}
+      [] f = "attrs" -> IF Rich THEN {"none", "str", "bool_int_float", "sequence", "all", "awkward"}
+                        ELSE {"none", "all", "awkward"}    \* awkward: valid attribute values the wire format cannot carry as they
+                                                           \* are (a None element of a sequence, an int beyond 64 bits): the
+                                                           \* snapshot is delivered all the same
       [] f = "log_msg" -> {"none", "text"}
       [] f = "auth" -> {"none", "basic", "custom", "failing"}
 
